@@ -26,9 +26,9 @@ func (o *dop) render(b *strings.Builder) {
 	switch o.kind {
 	case "R", "RR":
 		fmt.Fprintf(b, " %s %d %d", o.kind, o.k, o.field)
-	case "RENUM", "FAIL":
+	case "RENUM", "FAIL", "FAILE":
 		fmt.Fprintf(b, " %s %d", o.kind, o.field)
-	case "MSG", "RMSG":
+	case "MSG", "RMSG", "RMSGN":
 		fmt.Fprintf(b, " %s %d %d", o.kind, o.field, len(o.ops))
 		for i := range o.ops {
 			o.ops[i].render(b)
@@ -149,6 +149,14 @@ func (o *dop) run(dec *picobuf.Decoder, st *dstate) {
 				}
 			})
 		})
+	case "RMSGN":
+		// a custom type that reads each element with one pass of its readers, without Loop
+		dec.RepeatedMessage(field, func(c *picobuf.Decoder) {
+			st.log = append(st.log, "entry")
+			for i := range o.ops {
+				o.ops[i].run(c, st)
+			}
+		})
 	case "LOOP":
 		dec.Loop(func(c *picobuf.Decoder) {
 			for i := range o.ops {
@@ -159,6 +167,12 @@ func (o *dop) run(dec *picobuf.Decoder, st *dstate) {
 		var out []byte
 		dec.UnrecognizedFields(o.mask, &out)
 		st.log = append(st.log, "u="+hexs(out)+suffix(dec))
+	case "FAILE":
+		dec.Fail(field, "")
+		if dec.Err() == nil {
+			st.contract = append(st.contract, "Fail(field, \"\") did not latch an error")
+		}
+		st.log = append(st.log, "f"+suffix(dec))
 	case "FAIL":
 		dec.Fail(field, "x")
 		if dec.Err() == nil {
@@ -184,6 +198,9 @@ func (c *ctx) randDop(depth int, fields []int32) dop {
 		return dop{kind: "RENUM", field: f}
 	case x <= 11:
 		o := dop{kind: []string{"MSG", "RMSG", "MSG"}[x-9], field: f}
+		if o.kind == "RMSG" && r.Intn(3) == 0 {
+			o.kind = "RMSGN"
+		}
 		n := 1 + r.Intn(3)
 		for i := 0; i < n; i++ {
 			o.ops = append(o.ops, c.randDop(depth+1, fields))
@@ -193,6 +210,9 @@ func (c *ctx) randDop(depth int, fields []int32) dop {
 		return dop{kind: "UNREC", mask: r.Uint64() & 0x1fe}
 	default:
 		if r.Intn(4) == 0 {
+			if r.Intn(3) == 0 {
+				return dop{kind: "FAILE", field: f}
+			}
 			return dop{kind: "FAIL", field: f}
 		}
 		return dop{kind: "R", k: r.Intn(15), field: f}
@@ -219,7 +239,7 @@ func (c *ctx) inputFor(prog []dop, fields []int32, depth int) []byte {
 				byField[o.field] = append(byField[o.field], rk{k: o.k, rep: true})
 			case "RENUM":
 				byField[o.field] = append(byField[o.field], rk{k: 1, rep: true})
-			case "MSG", "RMSG":
+			case "MSG", "RMSG", "RMSGN":
 				byField[o.field] = append(byField[o.field], rk{msg: true, sub: o.ops})
 			case "LOOP":
 				walk(o.ops)
